@@ -98,6 +98,27 @@ CHECKS = {
    note="Trusted: fstc; transcribed per-item processing of Parameters.from_ical (shape checks + exhaustive comparison with the real method; a "
         "disagreement makes the dependent obligations undecided); names compared after upper-casing (C17). Known finding C08-F1.",
    technique="contract-based deductive verification: rational transducers + certified loop quotient of q_split, decided by fstc; bounded stand-in"),
+ "C18": dict(
+   category="proof", design_ref="DESIGN.md section 8 C18",
+   text="Component.property_items is proved against its recursive contract (BEGIN, every entry of every key in key order with list "
+        "entries separately, the items of every subcomponent, END) by one-level unfolding with symbolic numbers of keys, list entries and "
+        "subcomponents; get_used_tzids is exactly the set of TZID parameters of all those values minus None; get_missing_tzids discards the "
+        "tz_name of every VTIMEZONE found by walk and can raise nothing; Timezone.from_tzid builds the component for the REQUESTED id; "
+        "add_missing_timezones appends exactly one from_tzid(t) per missing id the provider knows. Real calendars with used / unused / "
+        "unknown / alias zone ids and repeated calls are a labelled bounded stand-in.",
+   note="Trusted: induction over tree height through recursive contracts; keys()/sorted_keys() list present keys (C17); sets compared as "
+        "operation logs; tz_name and the provider (tzp.timezone, from_tzinfo) are opaque in the deductive part.",
+   technique="contract-based deductive verification: AST->z3 VCs (pyvc) with recursive contracts and segment sequences; bounded stand-in"),
+ "C20": dict(
+   category="proof", design_ref="DESIGN.md section 8 C20",
+   text="Component._walk is proved against its recursive contract (self first iff name/predicate match, then the walks of the "
+        "subcomponents in order: pre-order, each nested component exactly once) for a symbolic number of subcomponents; walk upper-cases "
+        "the requested name; events/todos/timezones/standard/daylight are walk with the fixed name and the always-true predicate; _walk "
+        "writes nothing; __eq__ answers False and never fails for non-components. The algebra of equality and the copy protocols on "
+        "random real trees are a labelled bounded stand-in (known finding C20-F1: kind is not compared).",
+   note="Trusted: induction over tree height; the select predicate is pure; the loop rule with accumulator (vc/pyvc/seqs.py). Bounded only: "
+        "reflexive/symmetric/permutation-insensitive/value-sensitive equality, deepcopy/pickle/serialise-and-parse copies.",
+   technique="contract-based deductive verification: AST->z3 VCs (pyvc) with a recursive contract; bounded stand-in"),
 }
 NA_REASON = "check not built yet (build round in progress; DESIGN.md section 8 describes the planned contracts)"
 
